@@ -55,12 +55,19 @@ BOTH_PREAMBLE = ("From H2V Require Import Base.Tac Base.Bytes Model.HpackInt Mod
                  "Local Open Scope N_scope.\n" + PACK + """
 Definition risky_queue (q : list N) : bool :=
   match q with _ :: _ :: _ => negb (last q 0 =? fold_right N.max 0 q)%N | _ => false end.
+Fixpoint bounds_of (acc : N) (frags : list (list N)) : list N :=
+  match frags with
+  | [] => []
+  | [_] => []
+  | f :: more => (acc + N.of_nat (length f))%N :: bounds_of (acc + N.of_nat (length f))%N more
+  end.
 Fixpoint to_oracle (bl : list block_rec) : list oracle_block :=
   match bl with
   | [] => []
   | (queued, frags, (fs, v, _, (entries, size, _))) :: more =>
     if risky_queue queued then []
-    else (queued, concat frags, match v with VOk => true | _ => false end, fs, entries, size) :: to_oracle more
+    else (queued, concat frags, bounds_of 0%N frags, match v with VOk => true | _ => false end, fs, entries, size)
+           :: to_oracle more
   end.
 Definition oracle_of_case (c : list (list N * option (list N)) * N * list block_rec) : N :=
   let '(huff, size, blocks) := c in oracle_hpack (huff, size, to_oracle blocks).
@@ -162,8 +169,12 @@ def oracle_term(c):
         if len(b["queued"]) >= 2 and b["queued"][-1] != max(b["queued"]):
             break
         allb = [x for f in b["frags"] for x in f]
-        bl.append("(%s, %s, %s, %s, %s, %d%%N)" % (
-            ql(b["queued"]), nl(allb), common.coq_bool(b["verdict"] == "Ok"), fields(b["fields"]),
+        bounds, acc = [], 0
+        for f in b["frags"][:-1]:
+            acc += len(f)
+            bounds.append(acc)
+        bl.append("(%s, %s, %s, %s, %s, %s, %d%%N)" % (
+            ql(b["queued"]), nl(allb), ql(bounds), common.coq_bool(b["verdict"] == "Ok"), fields(b["fields"]),
             block_entries(c, i, b), b["table"]["size"]))
     return "(%s, %d%%N, [%s])" % (huff_table(c), c["size"], "; ".join(bl))
 
@@ -479,18 +490,23 @@ def evaluate(rep, tier, streams, reason=None):
             {"frags": b["frags"], "verdict": b["verdict"], "fields": len(b["fields"])} for b in c["blocks"][:2]]}
             for c in cases[:2]])
         ocodes = dict(ofail)
+        kn = known_classes()
         for i in mfail[:3]:
             c = cases[i]
-            if i in ocodes:
-                # the implementation itself violates the property here; the model follows the code
-                # it was written from, so this is reported as the implementation's failing input
+            cls = ORACLE_CLASSES.get(ocodes.get(i), None)
+            if i in ocodes and cls not in kn:
+                # the implementation itself violates the property here (the model follows the code
+                # it was written from): reported as the implementation's failing input
                 found = judge(rep, c, ocodes[i], "model and implementation disagree and the RFC oracle objects to the "
                               "implementation (stream %s)" % name, budget) or found
                 continue
+            # the code no longer behaves like the model (a known-finding class, or no objection of
+            # the oracle, does not excuse that)
             small = shrink(c, model_disagrees, budget=budget)
             sc = replay([small])
             rep.violation("broken-correspondence",
-                          {"what": "model (Model/HpackDec.v) and implementation disagree; the RFC oracle has no objection",
+                          {"what": "model (Model/HpackDec.v) and implementation disagree; the RFC oracle has no objection "
+                                   "beyond the known findings", "oracle_class": cls,
                            "stream": name, "history": small, "implementation": sc[0]["blocks"] if sc else None},
                           no_input=True)
         if name != "ints":
